@@ -14,6 +14,21 @@ fn main() {
                 }
             }
         }
-        _ => { eprintln!("usage: replay_base datetime <u32>..."); std::process::exit(2); }
+        Some("sincos") => {
+            // sincos <yaw f32 bits>... -> rotation = 2*PI - yaw as the library computes it; prints bits of rotation, sin, cos
+            for s in &a[2..] {
+                let yaw = f32::from_bits(s.parse::<u32>().unwrap());
+                let rotation = 2.0 * std::f32::consts::PI - yaw;
+                println!("{} {} {} {}", s, rotation.to_bits(), rotation.sin().to_bits(), rotation.cos().to_bits());
+            }
+        }
+        Some("square") => {
+            // square px py pz sx sy sz length width height yaw   (all f32 bits)
+            let v: Vec<f32> = a[2..].iter().map(|s| f32::from_bits(s.parse::<u32>().unwrap())).collect();
+            let p = wow_world_base::shared::vector3d_vanilla_tbc_wrath::Vector3d { x: v[0], y: v[1], z: v[2] };
+            let q = wow_world_base::shared::vector3d_vanilla_tbc_wrath::Vector3d { x: v[3], y: v[4], z: v[5] };
+            println!("{}", wow_world_base::geometry::is_within_square(p, q, v[6], v[7], v[8], v[9]));
+        }
+        _ => { eprintln!("usage: replay_base datetime <u32>... | sincos <bits>... | square <10 x f32 bits>"); std::process::exit(2); }
     }
 }
